@@ -134,65 +134,10 @@ func checkC18(p *Program, r *Report) {
 	}
 
 	// ---- freshness: every receiver field Stat reads is replaced by every successful load
-	r.Rule("C18.fresh", "E5 on E4", "the state Stat reads is replaced by Unmarshal for every compatible version", 2)
-	if stat != nil {
-		vt := buildVersTable(p)
-		if !vtProblems(vt, r) {
-			reads := map[string]bool{}
-			for f := range trieReach(stat) {
-				instrsOf(f, func(_ *ssa.BasicBlock, in ssa.Instruction) {
-					if fa, ok := in.(*ssa.FieldAddr); ok && isNamed(fa.X.Type(), triePath, "SlimTrie") {
-						_, fv, _ := fieldOfAddr(fa)
-						// a pure store target is not a read
-						onlyStores := true
-						for _, ref := range *fa.Referrers() {
-							if st, ok := ref.(*ssa.Store); !ok || st.Addr != fa {
-								onlyStores = false
-							}
-						}
-						if !onlyStores {
-							reads[fv.Name()] = true
-						}
-					}
-				})
-			}
-			un := vt.ve.un
-			stored := vt.ve.effects(un).stStores
-			if reset := p.Method(p.Trie, "SlimTrie", "Reset"); reset != nil {
-				for k := range vt.ve.effects(reset).stStores {
-					stored[k] = true
-				}
-			}
-			for k := range vt.ve.effects(stat).stStores {
-				stored[k] = true
-			}
-			var fields []string
-			for f := range reads {
-				if stored[f] {
-					fields = append(fields, f)
-				}
-			}
-			sort.Strings(fields)
-			for _, f := range fields {
-				var bad []string
-				for _, ver := range vt.compatVer {
-					re := newResEngine(vt.ve, ver)
-					fr := &vframe{fn: un, verVals: map[ssa.Value]bool{}, stVals: map[ssa.Value]bool{un.Params[0]: true}}
-					instrsOf(un, func(_ *ssa.BasicBlock, in ssa.Instruction) {
-						if c, ok := in.(*ssa.Call); ok && c.Call.IsInvoke() && c.Call.Method.Name() == "GetVersion" {
-							fr.verVals[c] = true
-						}
-					})
-					sum := re.summarize(fr, true, fields)
-					if !sum.must[f] || len(sum.early[f]) > 0 {
-						bad = append(bad, ver)
-					}
-				}
-				r.Check(len(bad) == 0, "Stat reads st."+f+": replaced by every successful Unmarshal", p.Pos(stat.Pos()), fmt.Sprintf("for all %d compatible versions", len(vt.compatVer)),
-					"st."+f+" is read by Stat but a successful Unmarshal of version(s) "+strings.Join(bad, ",")+" does not replace it: Stat can report the previous contents")
-			}
-		}
-	}
+	checkFreshFor(p, r, "C18.fresh", stat, "Stat", 2)
+
+	// ---- the level walk locates nodes with the same layout polynomial as the query path (shared with C01.layout)
+	checkLayoutSiblings(p, r, "C18.level-locator")
 
 	// ---- inclusive rank at the last position
 	r.Rule("C18.inclusive", "E6", "rank at the last bitmap position counts the last bit", 2)
@@ -306,4 +251,76 @@ func levelRecordType(p *Program) *types.Named {
 		return p.NamedType(p.Trie, "levelInfo")
 	}
 	return out
+}
+
+// checkFreshFor: every field of the trie that the given reader (and what it
+// calls inside package trie) reads, and that anybody stores, is replaced by
+// every successful Unmarshal of every compatible version before it can be
+// observed (E5 on the version-specialised CFG) — a memo or derived table that
+// survives a load makes the reader describe the previous contents.
+func checkFreshFor(p *Program, r *Report, rule string, reader *ssa.Function, what string, floor int) {
+	r.Rule(rule, "E5 on E4", "the state "+what+" reads is replaced by Unmarshal for every compatible version", floor)
+	if reader == nil {
+		return
+	}
+	vt := buildVersTable(p)
+	if vtProblems(vt, r) {
+		return
+	}
+	reads := map[string]bool{}
+	for f := range trieReach(reader) {
+		instrsOf(f, func(_ *ssa.BasicBlock, in ssa.Instruction) {
+			if fa, ok := in.(*ssa.FieldAddr); ok && isNamed(fa.X.Type(), triePath, "SlimTrie") {
+				_, fv, _ := fieldOfAddr(fa)
+				// a pure store target is not a read
+				onlyStores := true
+				for _, ref := range *fa.Referrers() {
+					if st, ok := ref.(*ssa.Store); !ok || st.Addr != fa {
+						onlyStores = false
+					}
+				}
+				if !onlyStores {
+					reads[fv.Name()] = true
+				}
+			}
+		})
+	}
+	un := vt.ve.un
+	stored := map[string]bool{}
+	for k := range vt.ve.effects(un).stStores {
+		stored[k] = true
+	}
+	if reset := p.Method(p.Trie, "SlimTrie", "Reset"); reset != nil {
+		for k := range vt.ve.effects(reset).stStores {
+			stored[k] = true
+		}
+	}
+	for k := range vt.ve.effects(reader).stStores {
+		stored[k] = true
+	}
+	var fields []string
+	for f := range reads {
+		if stored[f] {
+			fields = append(fields, f)
+		}
+	}
+	sort.Strings(fields)
+	for _, f := range fields {
+		var bad []string
+		for _, ver := range vt.compatVer {
+			re := newResEngine(vt.ve, ver)
+			fr := &vframe{fn: un, verVals: map[ssa.Value]bool{}, stVals: map[ssa.Value]bool{un.Params[0]: true}}
+			instrsOf(un, func(_ *ssa.BasicBlock, in ssa.Instruction) {
+				if c, ok := in.(*ssa.Call); ok && c.Call.IsInvoke() && c.Call.Method.Name() == "GetVersion" {
+					fr.verVals[c] = true
+				}
+			})
+			sum := re.summarize(fr, true, fields)
+			if !sum.must[f] || len(sum.early[f]) > 0 {
+				bad = append(bad, ver)
+			}
+		}
+		r.Check(len(bad) == 0, what+" reads st."+f+": replaced by every successful Unmarshal", p.Pos(reader.Pos()), fmt.Sprintf("for all %d compatible versions", len(vt.compatVer)),
+			"st."+f+" is read by "+what+" but a successful Unmarshal of version(s) "+strings.Join(bad, ",")+" does not replace it: "+what+" can report the previous contents")
+	}
 }
